@@ -1,6 +1,7 @@
 //! Generators: choice sequence -> structured specs.
 pub mod frames;
 pub mod headers;
+pub mod jpeg;
 pub mod modular;
 pub mod stream;
 pub mod vardct;
